@@ -27,6 +27,8 @@ EXPECTED_ERR = {
     "Assert": {"FailedAssertion"}, "Inv": {"DivideByZero"}, "Not": {"NotBinaryValue"}, "And": {"NotBinaryValue"},
     "Or": {"NotBinaryValue"}, "CSwap": {"NotBinaryValue"}, "CSwapW": {"NotBinaryValue"},
     "U32div": {"DivideByZero"}, "U32assert2": {"NotU32Value"}, "U32and": {"NotU32Value"}, "U32xor": {"NotU32Value"},
+    "MLoad": {"MemoryAddressOutOfBounds"}, "MLoadW": {"MemoryAddressOutOfBounds"}, "MStore": {"MemoryAddressOutOfBounds"},
+    "MStoreW": {"MemoryAddressOutOfBounds"}, "MStream": {"MemoryAddressOutOfBounds"}, "Pipe": {"MemoryAddressOutOfBounds"},
 }
 # failing cases checked by the bitwise chiplet's processor side (u32and/u32xor fail on non-u32 operands)
 EXTRA_IMPLIED = {
